@@ -45,7 +45,8 @@ def _single_terms(g, draw, view):
 
 
 @st.composite
-def cases(draw):
+def cases(draw, tier="quick"):
+    big = tier == "thorough"
     env = draw(gen.envs(max_scalars=3, max_vectors=2, max_matrices=1, max_vec=12, max_mat=3, max_params=1,
                         bounds=True))
     # domains
@@ -102,7 +103,7 @@ def cases(draw):
 
 
 def strategy(tier):
-    return cases()
+    return cases(tier)
 
 
 def sample_repr(case):
